@@ -55,6 +55,8 @@ func genOffsets(r *rng, n int, tier string, emit func(string)) {
 		"9223372036854775807 1 100 0 0 ; 0 0 0 4611686018427387904 0", // default maxLag
 		"5 1 1 0 0 ; 0 4611686018427387900 0 4611686018427387904 0",
 		"5 1 100 0 0 ;",                                // no partitions
+		"5 1 9223372036854775807 0 0 ; 0 10 0 4611686018427387904 0", // unlimited maxrecords
+		"5 1 9223372036854775800 0 0 ; 0 0 0 100 0 ; 1 50 0 100 0",
 	} {
 		emit(c)
 	}
@@ -63,7 +65,7 @@ func genOffsets(r *rng, n int, tier string, emit func(string)) {
 		if r.chance(10) {
 			maxLag = r.rangeI(0, 50)
 		}
-		maxRec := r.pick(1, 2, 3, 10, 1000, math.MaxInt32)
+		maxRec := r.pick(1, 2, 3, 10, 1000, math.MaxInt32, math.MaxInt64, math.MaxInt64-1, 1<<62, (1<<62)+1)
 		recEn := r.chance(75)
 		cerr := r.chance(4)
 		aerr := r.chance(4)
